@@ -286,3 +286,38 @@ def spec_sequences(items):
                 c = ("rest", it["f"], bool(it.get("utf8")))
             seqs = [(s + [c], pres) for s, pres in seqs]
     return seqs
+
+
+def resolve_word(eng, st, val):
+    """all (state, constant) alternatives of an emitted integer whose bits are constants or booleans
+    decided (or decidable by a case split) on this path; None if some bit is unknown"""
+    if isinstance(val, VInt) and val.lin.is_const():
+        return [(st, val.lin.c)]
+    bits = eng.bits_of(val) if isinstance(val, VInt) else None
+    if bits is None:
+        return None
+    alts = [(st, 0)]
+    for k, b in enumerate(bits):
+        if b == 0:
+            continue
+        if b == 1:
+            alts = [(s, w | (1 << k)) for s, w in alts]
+            continue
+        if b is None:
+            return None
+        f = ("bit", b[1], b[2]) if b[0] == "b" else (("not", ("bit", b[1], b[2])) if b[0] == "n" else b[1])
+        new = []
+        for s, w in alts:
+            v = eng.bool_value(s, f)
+            if v is True:
+                new.append((s, w | (1 << k)))
+            elif v is False:
+                new.append((s, w))
+            else:
+                s1, s0 = s.fork(), s.fork()
+                for s2 in eng.assume(s1, f, True):
+                    new.append((s2, w | (1 << k)))
+                for s2 in eng.assume(s0, f, False):
+                    new.append((s2, w))
+        alts = new
+    return alts
